@@ -348,6 +348,10 @@ impl Prop for P {
             "HashMap/HashSet results are compared as maps/sets (iteration order not asserted)".into(),
         ]
     }
+    fn tier_caps(&self) -> Vec<(&'static str, f64)> {
+        // hook H2: the same generated cases also run with run-time CPU detection capped
+        vec![("scalar", 0.1), ("sse42", 0.1), ("avx2", 0.1)]
+    }
     fn plans(&self, tier: Tier) -> Vec<Plan> {
         let q = |a, b| tier.pick(a, b);
         let seq_max = q(60, 400);
